@@ -292,7 +292,8 @@ void fam_copy(Tape& t, Stats& st) {
 }
 
 // ---------- (f) FileWriter open-flag matrix ----------
-// how: 0 = one Write; 1 = data split over three Write calls; 2 = writer move-constructed first, data written through the new object
+// how: 0 = one Write; 1 = data split over three Write calls; 2 = writer move-constructed first, data written through the new object;
+// 3 = moved into a heap object, original destroyed first; 4 = three bytes, then the bulk in one call, then the last two bytes
 void filewriter_case(unsigned flags, bool exists, const std::vector<uint8_t>& old, const std::vector<uint8_t>& data, Stats& st, unsigned how = 0) {
 	using FW = Stream::FileWriter;
 	std::string path = scratch_path("c14_fw.bin");
@@ -311,6 +312,7 @@ void filewriter_case(unsigned flags, bool exists, const std::vector<uint8_t>& ol
 			FW w(path, static_cast<FW::OpenMode>(flags));
 			if (how == 1) { size_t a = data.size() / 3, b = data.size() / 2; w.Write(data.data(), a); w.Write(data.data() + a, b - a); w.Write(data.data() + b, data.size() - b); }
 			else if (how == 2) { FW w2(std::move(w)); size_t a = data.size() / 2; w2.Write(data.data(), a); w2.Write(data.data() + a, data.size() - a); }
+			else if (how == 4) { size_t a = std::min<size_t>(3, data.size()), b = data.size() > 5 ? data.size() - 2 : data.size(); w.Write(data.data(), a); w.Write(data.data() + a, b - a); w.Write(data.data() + b, data.size() - b); }   // small, bulk, small
 			else w.Write(data.data(), data.size());
 		}
 	}
@@ -345,7 +347,7 @@ void fam_filewriter(Tape& t, Stats& st) {
 	auto old = t.bytes(t.below(40)); auto data = t.bytes(t.below(40));
 	if (t.below(6) == 0) data = t.expand(t.pick<uint32_t>({4095, 4096, 4097, 8191, 8192, 8193, 65536, 70001}));     // beyond one stream buffer
 	if (t.below(8) == 0) old = t.expand(t.pick<uint32_t>({4096, 8192, 8193, 20000}));
-	unsigned how = unsigned(t.below(4));
+	unsigned how = unsigned(t.below(5));
 	filewriter_case(flags, exists, old, data, st, how);
 	st.cls("fw:how" + std::to_string(how));
 	st.cls("fam:filewriter");
@@ -397,7 +399,7 @@ void run_sweep(Stats& st) {
 				filewriter_case(flags, ex, old, data, st);
 				// the same cell with split writes / a moved writer, and with data larger than a stream buffer
 				std::vector<uint8_t> big(70001); for (size_t i = 0; i < big.size(); ++i) big[i] = uint8_t(i * 31 + (i >> 9));
-				for (unsigned how = 1; how < 4; ++how) { filewriter_case(flags, ex, old, data, st, how); if (variant == 0) filewriter_case(flags, ex, old, big, st, how); st.evaluations += 2; }
+				for (unsigned how = 1; how < 5; ++how) { filewriter_case(flags, ex, old, data, st, how); if (variant == 0) filewriter_case(flags, ex, old, big, st, how); st.evaluations += 2; }
 			}
 	// (a) all 2-step histories over the boundary table on a 5-byte buffer
 	for (unsigned o1 = 0; o1 < 5; ++o1) for (unsigned c1 = 0; c1 < 14; ++c1) for (unsigned o2 = 0; o2 < 5; ++o2) for (unsigned c2 = 0; c2 < 14; ++c2) {
